@@ -299,16 +299,20 @@ Chunk(h) ==
   /\ Obs("Chunk", h, <<>>, <<ver[D(h)]>>, <<ideal[h]>>)
   /\ UNCHANGED << ds, store, ver, ideal, ball, kd, gdf, poly, line, jac, tmpl, exports >>
 
-Copy(h, c) ==
+\* every way of asking for a deep copy: Grid.copy(), copy.deepcopy(grid), and the grid that comes with a
+\* deep copy of a data array / dataset holding it (with and without replacement data)
+CopyRoutes == { "grid", "deepcopy", "uxda_deep", "uxda_deep_data", "uxds_deep", "uxds_deep_data" }
+
+Copy(h, c, route) ==
   /\ Live(h) /\ ~Live(c)
-  /\ IF Mech.copyDs = "shared"
+  /\ IF Mech.copyDs = "shared" \/ route \in Mech.copyShares
        THEN ds' = [ds EXCEPT ![c] = D(h)] /\ UNCHANGED << store, ver >>
        ELSE \E d \in FreeDs : /\ d = CHOOSE x \in FreeDs : \A y \in FreeDs : x <= y
                               /\ ds' = [ds EXCEPT ![c] = d]
                               /\ store' = [store EXCEPT ![d] = store[D(h)]]
                               /\ ver' = [ver EXCEPT ![d] = ver[D(h)]]
   /\ ideal' = [ideal EXCEPT ![c] = ideal[h]]
-  /\ Obs("Copy", h, <<c>>, <<ver[D(h)]>>, <<ideal[h]>>)
+  /\ Obs("Copy", h, <<c, route>>, <<ver[D(h)]>>, <<ideal[h]>>)
   /\ UNCHANGED << ball, kd, gdf, poly, line, jac, tmpl, exports >>
 
 (* ---- mutators (alphabet of C19) ----------------------------------------- *)
@@ -379,7 +383,7 @@ Mutators ==
   \/ On("mutate") /\ \E h \in Handles, how \in { "normalize", "face_centers", "setter", "inplace" } : Mutate(h, how)
   \/ On("edit") /\ \E e \in exports : EditExport(e)
   \/ On("edit") /\ \E h \in Handles, what \in { "gdf", "poly", "line" } : EditReturned(h, what)
-  \/ On("copy") /\ \E h \in Handles, c \in Handles \ Base : Copy(h, c)
+  \/ On("copy") /\ \E h \in Handles, c \in Handles \ Base, route \in CopyRoutes : Copy(h, c, route)
 
 Next     == ReadOnly \/ Mutators
 NextRead == ReadOnly
@@ -429,7 +433,7 @@ MechIntended ==
     polyCmp |-> { "pe", "proj" }, polyStore |-> { "pe", "proj" },
     lineCmp |-> { "pe", "proj" }, lineStore |-> { "pe", "proj" },
     gdfReturn |-> "copy", polyReturn |-> "copy", lineReturn |-> "copy", dataColInto |-> "copy",
-    copyDs |-> "deep", ugridExport |-> "new", topoTmpl |-> "copied", jacSlot |-> "default_only" ]
+    copyDs |-> "deep", copyShares |-> {}, ugridExport |-> "new", topoTmpl |-> "copied", jacSlot |-> "default_only" ]
 
 \* the code as it is now (pinned commit plus the fix: commits recorded in known_findings.json): the
 \* only remaining deviation from the intended mechanism is that to_geodataframe hands out its cached
@@ -440,7 +444,7 @@ MechObserved ==
     polyCmp |-> { "pe", "proj" }, polyStore |-> { "pe", "proj" },
     lineCmp |-> { "pe", "proj" }, lineStore |-> { "pe", "proj" },
     gdfReturn |-> "cached", polyReturn |-> "copy", lineReturn |-> "copy", dataColInto |-> "copy",
-    copyDs |-> "deep", ugridExport |-> "new", topoTmpl |-> "copied", jacSlot |-> "default_only" ]
+    copyDs |-> "deep", copyShares |-> {}, ugridExport |-> "new", topoTmpl |-> "copied", jacSlot |-> "default_only" ]
 
 \* the code as it was before the fix: commits (kept to show that the model finds each defect)
 MechPinned ==
@@ -449,5 +453,9 @@ MechPinned ==
     polyCmp |-> { "pe", "proj" }, polyStore |-> { "pe", "proj" },
     lineCmp |-> { "pe", "proj" }, lineStore |-> { "pe" },
     gdfReturn |-> "cached", polyReturn |-> "copy", lineReturn |-> "cached", dataColInto |-> "cached",
-    copyDs |-> "shared", ugridExport |-> "internal", topoTmpl |-> "shared", jacSlot |-> "last_compute" ]
+    copyDs |-> "shared", copyShares |-> {}, ugridExport |-> "internal", topoTmpl |-> "shared", jacSlot |-> "last_compute" ]
+
+\* a deep copy of a data array / dataset made with replacement data keeps the original's Grid
+\* (kept to show that the model tells the copy routes apart)
+MechCopyDataShares == [ MechIntended EXCEPT !.copyShares = { "uxda_deep_data", "uxds_deep_data" } ]
 =============================================================================
